@@ -18,10 +18,6 @@ structure MReq where
   pending : Bool := true
   /-- the group of a `_send_request_to_coordinator` request -/
   grp : Option String := none
-  /-- the connection the request was last written to (harness annotation) -/
-  conn : Option Nat := none
-  /-- EXTRA: written since its broker client last got a new connection (or issued since) -/
-  resent : Bool := true
   deriving Repr, DecidableEq
 
 structure MSt where
@@ -41,6 +37,10 @@ structure MSt where
   /-- EXTRA: connections that must be told to close before the step ends / already told -/
   owedLose : List Nat := []
   gone : List Nat := []
+  /-- EXTRA: request ↦ the connection it was last written to (harness annotation; latest first) -/
+  connOf : List (Nat × Nat) := []
+  /-- EXTRA: requests not written since their broker client last got a new connection -/
+  unsent : List Nat := []
   /-- EXTRA: broker clients that reported a new connection and whose requests have not been looked at yet -/
   reconn : List Nat := []
   extraFails : List String := []
@@ -79,7 +79,7 @@ def endStep (s : MSt) : MSt :=
   -- write annotations to that step), each of its unanswered requests has been written again
   -- ("the remaining unanswered requests are re-sent on a new one")
   let isConn := match s2.cur with | some (.conn _ _) => true | _ => false
-  let stale := s2.reqs.filter (fun r => r.pending && s2.reconn.contains r.b && !r.resent)
+  let stale := s2.reqs.filter (fun r => r.pending && s2.reconn.contains r.b && s2.unsent.contains r.k)
   let s3 := if isConn || stale.isEmpty then s2 else failX s2 s!"requests {stale.map (·.k)} were not (re-)sent on the new connection"
   { s3 with owedDisc := [], owedLose := [], lateOf := none, reconn := if isConn then s3.reconn else [] }
 
@@ -118,7 +118,7 @@ def stepOb (cfg : Cfg) (s : MSt) (o : Ob) : MSt :=
         | some due =>
           if due ≤ s.now && cfg.disconnectOnTimeout then
             { s with owedDisc := s.owedDisc ++ [r.b],
-                     owedLose := match r.conn with
+                     owedLose := match Afkak.ClientCache.get? k s.connOf with
                        | some c => if s.gone.contains c then s.owedLose else s.owedLose ++ [c]
                        | none => s.owedLose }
           else s
@@ -142,14 +142,14 @@ def stepItem (cfg : Cfg) (s : MSt) : TItem → MSt
     | .advance dt => if dt < 0 then s else { s with now := s.now + dt }
     | .srtc _ g m => { s with seen := s.seen ++ [(g, m)] }
     | .conn b v => { s with reconn := s.reconn.filter (fun e => !(e == b)) ++ (if v then [b] else []),
-                              reqs := if v then s.reqs.map (fun r => if r.b == b && r.pending then { r with resent := false } else r) else s.reqs }
+                              unsent := if v then s.unsent ++ (s.reqs.filter (fun r => r.b == b && r.pending)).map (·.k) else s.unsent }
     | .fire k _ =>
       (match getReq s k with
        | some r => if r.pending then resolve s k else { s with lateOf := some k }
        | none => s)
     | _ => s
   | .ob o => stepOb cfg s o
-  | .wrote k c => setReq s k (fun r => { r with conn := some c, resent := true })
+  | .wrote k c => { s with connOf := (k, c) :: s.connOf, unsent := s.unsent.filter (fun x => !(x == k)) }
   | .exc c => failX s s!"exception {c} escaped into the reactor"
   | .lose c => { s with owedLose := s.owedLose.filter (fun x => !(x == c)), gone := s.gone ++ [c] }
   | .timers l =>
